@@ -36,3 +36,18 @@ Theorem C11_flush_keeps_unread_file_text : forall p ln m id b, bget (m_bufs m) i
   exists b', bget (m_bufs (fst (bstep p ln m (BFlush id)))) id = Some b' /\ b_data b' = b_data b.
 Proof. exact flush_keeps_unread_file_text. Qed.
 Print Assumptions C11_flush_keeps_unread_file_text.
+
+(** yypop_buffer_state() called from yywrap(): buffers that are not on the stack are out of reach, and
+    scanning resumes in the buffer pushed before exactly where it stopped. *)
+Theorem C11_pop_in_yywrap_leaves_others : forall p ln k m id, ~ on_stack m id ->
+  bget (m_bufs (fst (bstep p ln m (BLexPop k)))) id = bget (m_bufs m) id.
+Proof. exact lexpop_off_stack_untouched. Qed.
+Print Assumptions C11_pop_in_yywrap_leaves_others.
+
+Theorem C11_pop_in_yywrap_resumes : forall p ln m a b t fuel,
+  m_stack m = Some a :: Some b :: t -> exhausted m = true -> a <> b ->
+  lexp1 p ln (S fuel) m = lexp1 p ln fuel (pop_state m) /\
+  m_stack (pop_state m) = Some b :: t /\
+  bget (m_bufs (pop_state m)) b = bget (m_bufs m) b.
+Proof. exact wrap_pop_resumes. Qed.
+Print Assumptions C11_pop_in_yywrap_resumes.
